@@ -181,7 +181,8 @@ def step (j : Json) : Json :=
     | some f => Json.mkObj [("ok", faultJson f)]
     | none => Json.mkObj [("ok", Json.null)]
   | "wsgi" =>
-    resultJson (wsgi F (jProto (jField j "proto")) (optNat (jField j "preset")) (jUser (jField j "user")))
+    let req : Option Proto := match jField j "req" with | .null => none | r => some (jProto r)
+    resultJson (wsgiSwap F (jProto (jField j "proto")) req (optNat (jField j "preset")) (jUser (jField j "user")))
   | "client" =>
     let w := jWire (jField j "w")
     let r := match jProto (jField j "proto") with
